@@ -381,6 +381,7 @@ async def run_once(desc, seed=None, K=3, timeout=60.0, gate=None, keep_db=False,
     from streamflow.core.workflow import Status
     from streamflow.workflow.executor import StreamFlowExecutor
     from vh.sut import context as vctx
+    from vh import aio
     C = classes()
     tmp = tempfile.mkdtemp(prefix="vh_dflow_")
     dbfile = os.path.join(tmp, "db.sqlite")
@@ -457,7 +458,7 @@ async def run_once(desc, seed=None, K=3, timeout=60.0, gate=None, keep_db=False,
         rec.wrap_step_runs(wf)
         ex = StreamFlowExecutor(wf)
         try:
-            res = await asyncio.wait_for(ex.run(), timeout)
+            res = await asyncio.wait_for(ex.run(), aio.scaled(timeout))
             out["result"] = {k: v for k, v in res.items()}
             out["error"] = None
             rec.ev.append({"ev": "return"})
@@ -476,7 +477,7 @@ async def run_once(desc, seed=None, K=3, timeout=60.0, gate=None, keep_db=False,
         me = asyncio.current_task()
         others = [t for t in asyncio.all_tasks() if t is not me and not t.done() and t.get_name() != "vh-driver"]
         if others:
-            await asyncio.wait(others, timeout=settle_timeout)
+            await asyncio.wait(others, timeout=aio.scaled(settle_timeout))
         for _ in range(5):
             await asyncio.sleep(0)
         if driver_task is not None:
